@@ -15,7 +15,8 @@ The only hypotheses are `ParserWF e`, the day range 1900–9999 (outside: `C01_m
 `C01_spec_outside`) and a decidable class of dated ranges (which implies `exprDefined e`):
  * `C01_schedule_refines_spec_plain` (every day of 1900–9999) and `C01_schedule_refines_spec_window` (and `'`,
    pointwise conclusion): dated ranges in the RULE-LEVEL decidable class `exprDatedPlain e` (= `exprDatedSafe e d`
-   for every `d`): both day offsets within ±100 000 days and a defined meaning (not "no year … year") —
+   for every `d`): both day offsets within ±30 000 000 days — about ±82 000 years; ±300 000 days when one of the
+   two dates is Easter; NO bound at all when both dates carry a year — and a defined meaning (not "no year … year") —
    NOTHING ELSE: bounds with or without a year, single days, any weekday shift, shifts of several years,
    occurrences longer than a year, offsets that differ by years (`Jan 01 +400 days-Jan 10 +770 days`).
    This is what centring the pairing windows of `MonthdayRange::Date` on the year of `d - day offset`
@@ -31,10 +32,14 @@ The only hypotheses are `ParserWF e`, the day range 1900–9999 (outside: `C01_m
  * `C04_schedule_total`: `daySchedule` never fails under `ParserWF` alone (every day, context, offset).
 No offset-scope hypothesis is left: the specification shifts days with the same saturating shift as the
 (repaired) code, see `OH.Spec.shift`, `OH.Spec.weekdayOk` and the history note below.
-NOT proved (rests on oracle + correspondence): day offsets beyond ±100 000 days on dated ranges (up to about
-±95 000 000 days nothing is known to fail; beyond, where `d - offset` is not representable and the code's
-shifts saturate, the filter is known to disagree with the saturating specification on some shapes — no
-panic, and the hint stays sound: brute force on the model).
+NOT proved (rests on oracle + correspondence): day offsets beyond ±30 000 000 days on dated ranges (beyond
+±300 000 days when a bound is Easter); up to about ±95 000 000 days nothing is known to fail; beyond, where
+`d - offset` is not representable and the code's shifts saturate, the filter is known to disagree with the
+saturating specification on some shapes — no panic, and the hint stays sound: brute force on the model.  Why the
+proof stops at 30 000 000: the specification looks for instances `3 + (|so| + |eo|) / 365` years on either side
+of the day, and beyond `3 × 30 000 000` days the shifted instances of those years are pinned at
+`NaiveDate::MIN/MAX` (the proofs rest on their strict order); Easter: `easter()` of a negative year is not a
+date of March/April (notes/DATED-BOUND.md).
 Older clauses kept below:
  * outside 1900-01-01 … 9999-12-31 both the model and the specification say closed;
  * the day schedule does not depend on the interval-size bound, and two contexts with the same
@@ -182,7 +187,8 @@ def exprDatedSafe (e : Expr) (d : Int) : Bool :=
 
 open OH.Proofs.EvalSpec in
 /-- rule-level class, no reference to the day (see `OH.Proofs.EvalSpec.datedPlain`): day offsets within
-±100 000 days; the range has a defined meaning.  Nothing else. -/
+±30 000 000 days (±300 000 days when a bound is Easter; any offsets when both bounds carry a year); the range has a
+defined meaning.  Nothing else. -/
 def exprDatedPlain (e : Expr) : Bool :=
   e.all (fun r => r.day.monthday.all (fun m => match m with
     | .date a so b eo => datedPlain a so b eo
@@ -269,7 +275,8 @@ theorem C01_schedule_refines_spec_inyear (ctx : Ctx) (e : Expr) (d : Int) (hwf :
   C01_schedule_refines_spec_window ctx e d hwf h1 h2 hds
 
 /-- C01 for every day of 1900–9999, for expressions in the RULE-LEVEL class `exprDatedPlain`: every dated
-range with a defined meaning whose day offsets are within ±100 000 days (`Jan 10-Feb 20`, `Dec 24-Jan 2`,
+range with a defined meaning whose day offsets are within ±30 000 000 days — ±300 000 days when a bound is
+Easter — (`Jan 10-Feb 20`, `Dec 24-Jan 2`,
 `Feb 29`, `2020 Dec 24-Jan 2`, `easter -47 days-easter +60 days`, `Jan 1 -10 days-Dec 25`,
 `Jan 01 +400 days-Jan 10 +770 days`, `Feb 29 -1000 days-Feb 29 +10 days`, `2020 Jan 1-Feb 1 +800 days`) -/
 theorem C01_schedule_refines_spec_plain (ctx : Ctx) (e : Expr) (d : Int) (hwf : ParserWF e = true)
@@ -362,15 +369,31 @@ example :
 /-- shifts of more than a year, offsets that differ by a year, single days longer than a year, a yearless end
 two years after a start with a year: all inside the rule-level class (`Jan 1 +800 days-Jan 5 +800 days`,
 `Jan 01 +400 days-Jan 10 +770 days`, `Feb 29 -1000 days-Feb 29 +10 days`, `2020 Jan 1-Feb 1 +800 days`,
-`Jan 01 -100000 days-Dec 31 +100000 days`) -/
+`Jan 01 -Mo -100000 days-Dec 31 +Su +100000 days`, and at the bound of the class
+`Jan 01 -Mo -30000000 days-Dec 31 +Su +30000000 days`, `Feb 29 +30000000 days`,
+`2020 Jan 1 -30000000 days-Feb 1 +30000000 days`, `easter -300000 days-easter +300000 days`, and with two years
+any offsets: `2020 Jan 1 -1000000000 days-2021 easter +1000000000 days`) -/
 example :
     let e : Expr := [⟨⟨[], [.date (.fixed none 1 1) ⟨.none, 800⟩ (.fixed none 1 5) ⟨.none, 800⟩,
                             .date (.fixed none 1 1) ⟨.none, 400⟩ (.fixed none 1 10) ⟨.none, 770⟩,
                             .date (.fixed none 2 29) ⟨.none, -1000⟩ (.fixed none 2 29) ⟨.none, 10⟩,
                             .date (.fixed (some 2020) 1 1) ⟨.none, 0⟩ (.fixed none 2 1) ⟨.none, 800⟩,
-                            .date (.fixed none 1 1) ⟨.prev 0, -100000⟩ (.fixed none 12 31) ⟨.next 6, 100000⟩], [], []⟩,
+                            .date (.fixed none 1 1) ⟨.prev 0, -100000⟩ (.fixed none 12 31) ⟨.next 6, 100000⟩,
+                            .date (.fixed none 1 1) ⟨.prev 0, -30000000⟩ (.fixed none 12 31) ⟨.next 6, 30000000⟩,
+                            .date (.fixed none 2 29) ⟨.none, 30000000⟩ (.fixed none 2 29) ⟨.none, 30000000⟩,
+                            .date (.fixed (some 2020) 1 1) ⟨.none, -30000000⟩ (.fixed none 2 1) ⟨.none, 30000000⟩,
+                            .date (.easter none) ⟨.none, -300000⟩ (.easter none) ⟨.none, 300000⟩,
+                            .date (.fixed (some 2020) 1 1) ⟨.none, -1000000000⟩ (.easter (some 2021)) ⟨.none, 1000000000⟩], [], []⟩,
       [TimeSpan.fullDay], .open, .normal, []⟩]
     ParserWF e = true ∧ exprDatedPlain e = true := by decide +kernel
+
+/-- just outside the class: one day more, on a fixed date and on Easter -/
+example :
+    let e1 : Expr := [⟨⟨[], [.date (.fixed none 1 1) ⟨.none, 30000001⟩ (.fixed none 12 31) ⟨.none, 0⟩], [], []⟩,
+      [TimeSpan.fullDay], .open, .normal, []⟩]
+    let e2 : Expr := [⟨⟨[], [.date (.easter none) ⟨.none, 0⟩ (.fixed none 12 31) ⟨.none, 300001⟩], [], []⟩,
+      [TimeSpan.fullDay], .open, .normal, []⟩]
+    exprDatedPlain e1 = false ∧ exprDatedPlain e2 = false := by decide +kernel
 
 /-- The witness of the former open finding `dated-shift-over-a-year`, `Jan 01 +400 days-Jan 10 +770 days` on
 2020-01-01 (day 737425): with the windows centred on the year of `d - offset` the filter says CLOSED, like the
